@@ -463,8 +463,108 @@ def r6_importable(m):
     return r
 
 
+TREE_WORLD = ("fparser.two", "fparser.common.readfortran", "fparser.common.sourceinfo", "fparser.common.splitline")
+IMMUTABLE_BUILTINS = {"int": int, "str": str, "float": float, "tuple": tuple, "bytes": bytes, "frozenset": frozenset, "complex": complex}
+PROTOCOL_OWN = {"__getnewargs__", "__getnewargs_ex__", "__reduce__", "__reduce_ex__"}
+
+
+def hook_scan(tree):
+    """(classes seen, findings) over one module tree.
+    (a) a __getattr__/__getattribute__ that reads instance state through `self.<attr>`: copy and pickle create the bare object first and
+        probe it (__setstate__, __reduce_ex__ ...) before any attribute exists, so the hook calls itself without end;
+    (b) a subclass of an immutable builtin whose own __new__ uses its argument in a way the plain builtin value does not support
+        (copy/pickle re-create the object as cls.__new__(cls, <plain value>)) and that does not supply its own reconstruction arguments."""
+    seen, out = 0, []
+    for c in ast.walk(tree):
+        if not isinstance(c, ast.ClassDef):
+            continue
+        seen += 1
+        own = {n.name: n for n in c.body if isinstance(n, ast.FunctionDef)}
+        class_level = {t.id for n in c.body if isinstance(n, (ast.Assign, ast.AnnAssign))
+                       for t in (n.targets if isinstance(n, ast.Assign) else [n.target]) if isinstance(t, ast.Name)}
+        for h in ("__getattr__", "__getattribute__"):
+            f = own.get(h)
+            if f is None:
+                continue
+            me = f.args.args[0].arg if f.args.args else "self"
+            reads = [x for x in ast.walk(f) if isinstance(x, ast.Attribute) and isinstance(x.value, ast.Name) and x.value.id == me
+                     and isinstance(x.ctx, ast.Load) and not (x.attr.startswith("__") and x.attr.endswith("__"))
+                     and x.attr not in own and x.attr not in class_level]
+            # a guard that sends dunder / private names straight to AttributeError before the first read makes the hook safe
+            guarded = False
+            for stmt in f.body:
+                if isinstance(stmt, ast.If) and any(isinstance(y, ast.Raise) for y in stmt.body) and \
+                        any(isinstance(y, ast.Call) and isinstance(y.func, ast.Attribute) and y.func.attr == "startswith" for y in ast.walk(stmt.test)):
+                    guarded = True
+                    break
+                if any(x in list(ast.walk(stmt)) for x in reads):
+                    break
+            if reads and not guarded:
+                out.append((c, f, "attr-hook", "%s.%s reads `%s.%s`: copy.deepcopy / pickle.loads create the bare object and look up "
+                            "__setstate__ / __reduce_ex__ on it before `%s` exists, so the hook re-enters itself until RecursionError"
+                            % (c.name, h, me, reads[0].attr, reads[0].attr)))
+        bases = [A.text(b).split(".")[-1] for b in c.bases]
+        bb = [b for b in bases if b in IMMUTABLE_BUILTINS]
+        if bb and "__new__" in own and not (PROTOCOL_OWN & set(own)):
+            f = own["__new__"]
+            params = [a.arg for a in f.args.args][1:]
+            for x in ast.walk(f):
+                if isinstance(x, ast.Attribute) and isinstance(x.value, ast.Name) and x.value.id in params and isinstance(x.ctx, ast.Load) \
+                        and not hasattr(IMMUTABLE_BUILTINS[bb[0]], x.attr):
+                    out.append((c, f, "builtin-new", "%s(%s).__new__ uses `%s.%s`, which a plain %s does not have: copy and pickle re-create "
+                                "the object as %s.__new__(cls, <%s value>) (the builtin's __getnewargs__), so deep-copying or unpickling any "
+                                "tree that holds such a value raises AttributeError" % (c.name, bb[0], x.value.id, x.attr, bb[0], c.name, bb[0])))
+                    break
+            if len([p_ for p_ in params if p_ not in A.param_defaults(f)]) > 1:
+                out.append((c, f, "builtin-new", "%s(%s).__new__ requires %d arguments but copy/pickle re-create it with the single plain %s value"
+                            % (c.name, bb[0], len(params), bb[0])))
+    return seen, out
+
+
+_HOOK_POSITIVE = """
+class D:
+    def __init__(self, item):
+        self.item = item
+    def __getattr__(self, name):
+        return getattr(self.item, name)
+class E:
+    def __getattr__(self, name):
+        if name.startswith("__"):
+            raise AttributeError(name)
+        return getattr(self.item, name)
+class L(int):
+    def __new__(cls, text):
+        obj = super().__new__(cls, text.replace(" ", ""))
+        obj.text = text
+        return obj
+class S(str):
+    def __new__(cls, text):
+        return super().__new__(cls, text.strip())
+"""
+
+
+def r7_hooks(m):
+    r = RuleResult("C18.R7", "no class that can be reached from a tree (nodes, reader items, readers, formats, split-line strings) has an "
+                             "attribute hook that reads instance state, or an immutable-builtin subclass whose __new__ cannot take the plain value: "
+                             "both make copy.deepcopy / pickle fail although parsing and printing work")
+    r.floor = 400
+    seen, out = hook_scan(ast.parse(_HOOK_POSITIVE))
+    if sorted((c.name, kind) for c, f, kind, msg in out) != [("D", "attr-hook"), ("L", "builtin-new")]:
+        r.error("the positive example is no longer recognised: %s" % [(c.name, kind) for c, f, kind, msg in out])
+        return r
+    for path, (_, tree) in sorted(m.files.items()):
+        if not m.modname[path].startswith(TREE_WORLD):
+            continue
+        seen, out = hook_scan(tree)
+        r.instances += seen
+        for c, f, kind, msg in out:
+            r.fail("%s|%s" % (c.name, kind), msg, "%s:%s" % (m.rel(path), f.lineno))
+    r.ob(True, "%d classes of the tree world scanned" % r.instances)
+    return r
+
+
 def run(m, tier):
-    results = [r1_newargs_vs_new(m), r2_attrs_set(m), r3_no_custom_protocol(m), r4_reachable_state(m), r5_no_back_reference(m), r6_importable(m)]
+    results = [r1_newargs_vs_new(m), r2_attrs_set(m), r3_no_custom_protocol(m), r4_reachable_state(m), r5_no_back_reference(m), r6_importable(m), r7_hooks(m)]
     expl = ("Decides that the copy protocol is well-typed over the whole node class hierarchy: for each of the ~500 node classes the "
             "tuple returned by its resolved __getnewargs__ binds to its resolved __new__, the _deepcopy flag is True and, under that "
             "flag, __new__ returns a fresh object without running a matcher or touching the stored text (abstract interpretation of "
